@@ -17,7 +17,7 @@ PRINCIPAL = ["normal", "zero", "nan_one", "huge", "rank1"]
 TRACE_CASES = True      # expensive cases: record the case in flight so a hang can be named
 RULE = (
     "A case is one compiled Distributed Shampoo configuration (mode in {replicated "
-    "jit, pmap with int16-quantised statistics/preconditioners, sharded under a "
+    "jit, replicated with low-rank packed (compression_rank +-1, +-2) preconditioners, pmap with int16-quantised statistics/preconditioners, sharded under a "
     "mesh}, Newton/eigh, inverse_failure_threshold in {0,1e-6,0.1,1e3}, "
     "matrix_epsilon in {0,1e-12,1e-6,1e-2}, intervals 1..3, graft type, x64 on/off, "
     "tree with unit dims and blocks) plus 6 (thorough 24) fault schedules of up to "
@@ -71,6 +71,12 @@ def _config(draw, modes):
   }
   if mode == "pmapq":
     o["best_effort_memory_usage_reduction"] = True
+  if mode == "compressed":
+    # replicated mode with low-rank packed preconditioners (_low_rank_root): statistics larger than |rank| + 2
+    o["compression_rank"] = draw(st.sampled_from([1, -1, 2, -2]))
+    o["block_size"] = 128
+    shapes = [[draw(st.sampled_from([5, 6, 8])), draw(st.sampled_from([1, 3, 6]))]
+              for _ in range(draw(st.sampled_from([1, 1, 2])))]
   return {"mode": mode, "shapes": shapes, "o": o, "x64": draw(st.sampled_from([False, False, True]))}
 
 
@@ -88,7 +94,7 @@ def shards(tier):
   ns = 6 if q else 24
   per = 30 if q else 300
   out = []
-  for mode, w in (("plain", 4), ("pmapq", 3), ("sharded", 4)):
+  for mode, w in (("plain", 3), ("pmapq", 3), ("sharded", 3), ("compressed", 2)):
     out.append({"name": f"{mode}", "examples": per * w, "workers": w, "modes": [mode], "nsched": ns, "x64": False})
   out.append({"name": "plain-x64", "examples": per * 2, "workers": 2, "modes": ["plain", "sharded"], "nsched": ns,
               "x64": True, "env": {"x64": True}})
